@@ -23,9 +23,9 @@ META = {
         'round(q, n): n in -3..6',
     ],
     'outside_bounds': ['negative divisor y in the kernel (quanta are positive)',
-                       'fraction-flavoured amounts reach _floordiv_rounded through symbolic '
-                       'numerator / denominator that are a superset of the reduced pairs '
-                       '(n = v*d, d >= 1, no coprimality)'],
+                       'fraction-flavoured amounts are N / D with D from {1, 2, 3, 7, 8, 9, 12, 13, 14, 16, 25, 64, 360, 1000} and N an unbounded '
+                       'integer; they reach _floordiv_rounded as a non-reduced (numerator, denominator) pair, justified by the '
+                       'scale lemma proved for common factors 2, 3, 10 (other denominators: only through the unbounded kernel result)'],
     'stubs': ['Decimal.quantize(quant, rounding): m = round_mode(self/quant), result m*quant',
               'round(Decimal, n): default rounding mode; round(Fraction, n): half-even (CPython)',
               'numerator / denominator of a symbolic rational'],
@@ -37,6 +37,7 @@ META = {
 # the fraction-flavoured path goes through symbolic numerator / denominator (non-linear link n == v*d): give
 # its obligations a generous limit so that a loaded machine does not turn them into 'undecided'
 SLOW = {'obl_ms': 45000, 'budget_s': 600}
+DENS = [1, 2, 3, 7, 16, 25, 64, 360, 1000, 9, 12, 13, 8, 14]
 
 
 def setup(mode):
@@ -50,6 +51,9 @@ def jobs(tier, seed):
         for m in MODES:
             out.append({'fn': 'kernel', 'cfg': {'impl': impl, 'mode': m, 'explicit': True}})
             out.append({'fn': 'kernel', 'cfg': {'impl': impl, 'mode': m, 'explicit': False}})
+    for m in MODES:
+        for g in (2, 3, 10):
+            out.append({'fn': 'kernel_scale', 'cfg': {'mode': m, 'g': g}})
     classes = C.linear_classes()
     if tier == 'quick':
         classes = [c for c in classes if c.__name__ in ('Mass', 'Length')]
@@ -68,7 +72,7 @@ def jobs(tier, seed):
             qv = quants[k % len(quants)]
             mode = MODES[k % 8]
             k += 1
-            out.append({'fn': 'quantize', 'cfg': {'pair': pr, 'flav': fl, 'quant': qv,
+            out.append({'fn': 'quantize', 'cfg': {'pair': pr, 'flav': fl, 'quant': qv, 'den': DENS[k % len(DENS)],
                                                   'mode': mode, 'explicit': bool(k % 3)}, 'opts': dict(SLOW)})
     # every mode x flavour x explicit/default on one fixed pair, all quanta
     for m in MODES:
@@ -76,7 +80,7 @@ def jobs(tier, seed):
             for ex in (True, False):
                 out.append({'fn': 'quantize', 'cfg': {'pair': ['kg', 'lb'], 'flav': fl,
                                                       'quant': quants[(MODES.index(m) + ex) % 6],
-                                                      'mode': m, 'explicit': ex,
+                                                      'mode': m, 'explicit': ex, 'den': DENS[(MODES.index(m) * 2 + ex) % len(DENS)],
                                                       'pass_none': MODES.index(m) % 2 == 0}, 'opts': dict(SLOW)})
     # flavour independence: both flavours are proved equal to the same *function* of the value
     # (is_rounding determines the multiple uniquely), so equality of the two results follows; a
@@ -89,8 +93,8 @@ def jobs(tier, seed):
     out.append({'fn': 'rejects', 'cfg': {}})
     out.append({'fn': 'kernel', 'cfg': {'impl': 'quantity', 'mode': 'ROUND_HALF_EVEN', 'explicit': True,
                                         'canary': True}, 'canary': True})
-    out.append({'fn': 'quantize', 'cfg': {'pair': ['kg', 'g'], 'flav': 'frac', 'quant': '0.25',
-                                          'mode': 'ROUND_HALF_UP', 'explicit': True, 'canary': True},
+    out.append({'fn': 'quantize', 'cfg': {'pair': ['kg', 'kg'], 'flav': 'frac', 'quant': '0.25',
+                                          'mode': 'ROUND_HALF_UP', 'explicit': True, 'den': 8, 'canary': True},
                 'canary': True})
     LAST_CONFIG_INFO.clear()
     LAST_CONFIG_INFO.update({'kernel_jobs': 32, 'quantize_unit_pairs': {'enumerated': len(pairs), 'total': n_pairs},
@@ -136,6 +140,20 @@ def kernel(E, cfg):
         E.check(E.div_is_rounding(_mode('ROUND_HALF_UP'), m, x, y), 'canary-kernel-half-up')
 
 
+def kernel_scale(E, cfg):
+    """lemma used by the fraction path: scaling both arguments by a common positive factor does not change
+    the result of _floordiv_rounded (so a non-reduced numerator / denominator pair gives the same multiple)"""
+    import quantity
+    mode = _mode(cfg['mode'])
+    g = cfg['g']
+    x = E.integer('x')
+    y = E.integer('y')
+    E.assume(y > 0)
+    m1 = quantity._floordiv_rounded(x, y, mode)
+    m2 = quantity._floordiv_rounded(g * x, g * y, mode)
+    E.check(m1 == m2, 'kernel-invariant-under-common-factor', key='kernel-scale-%s' % cfg['mode'], info=cfg)
+
+
 def _quantize_common(E, cfg, q):
     from quantity import Quantity
     us, ws = cfg['pair']
@@ -164,7 +182,13 @@ def _quantize_common(E, cfg, q):
 def quantize(E, cfg):
     from quantity import Quantity
     u = C.unit(cfg['pair'][0])
-    a = E.rational('a', cfg['flav'])
+    if cfg['flav'] == 'frac':
+        # amounts N / D with D from a list (bound) and N an unbounded integer: numerator and denominator handed to
+        # _floordiv_rounded are then linear in N (non-reduced pair; the kernel jobs prove that scaling both arguments
+        # by a common factor does not change the result)
+        a = E.rational_over('n', cfg.get('den', 7), 'frac')
+    else:
+        a = E.rational('a', cfg['flav'])
     q = Quantity(a, u)
     r, nq, mode = _quantize_common(E, cfg, q)
     E.check(r.unit is u, 'quantize-unit')
